@@ -522,7 +522,12 @@ class ExtraCoords(ExtraCoordsABC):
             if np.isscalar(array_axes):
                 new_coord = coord.interpolate(new_grids[array_axes], **kwargs)
             else:
-                new_coord = coord.interpolate(*[new_grids[axis] for axis in array_axes], **kwargs)
+                grids = [new_grids[axis] for axis in array_axes]
+                if not coord.mesh:
+                    # A table with an entry per pixel (not a table per axis) is interpolated
+                    # at the position of every new pixel.
+                    grids = np.meshgrid(*grids, indexing="ij")
+                new_coord = coord.interpolate(*grids, **kwargs)
             new_ec.add(coord.names, array_axes, new_coord, physical_types=coord.physical_types)
         return new_ec
 
